@@ -39,8 +39,14 @@
     * C10_song_resolves_partial       every song of every history whose file the spec reader accepts passes the
                                       spec's executable per-song resolver `LinkSpec.songOk` at its song number
                                       (PARTIAL: D11 hypothesis, bank below 4 GiB)
-  `C10_full_statement` keeps the whole-history statement against the spec resolver; what is
-  missing from it is said there.
+    * C10_group_key_agrees            keyify = spec symbolOf, group key = spec groupOf, operator< = spec order
+    * C10_resolver_songs_partial      the bank's songs in song-number order are the spec's `ordered songs`, pairwise;
+                                      the resolver's per-song loop passes
+    * C10_full_bank_partial / _fresh  `LinkSpec.resolveBank` returns ok on the linked banks (bank half of the full statement)
+    * C10_full_headers_partial        `LinkSpec.resolveHeaders` returns ok on the generated headers (header half)
+    * C10_full_partial                = `C10_full_statement` with two extra hypotheses: linked bank below 4 GiB, fewer
+                                      than 65536 songs (both needed: 32-bit offsets, 16-bit song count)
+  `C10_full_statement` keeps the statement without these two hypotheses.
 -/
 import Ctrmml.Proofs.Linker
 import Ctrmml.Proofs.Wave
@@ -50,6 +56,7 @@ import Ctrmml.Proofs.LinkStored
 import Ctrmml.Proofs.LinkResolve
 import Ctrmml.Proofs.LinkOrder
 import Ctrmml.Proofs.LinkBank
+import Ctrmml.Proofs.LinkHeaders
 import Ctrmml.Spec.Link
 namespace Ctrmml.Linker
 open Ctrmml
@@ -830,26 +837,54 @@ theorem exBank2_ok : getSeqData exL2 = .ok exBank2 := by
 example : runOps (exFiles.map fun f => Op.add f.1 f.2) (Linker.fresh 64 16) = .ok exL2 ∧ getSeqData exL2 = .ok exBank2 ∧
     exBank2.length < 4294967296 := ⟨ok_of_isOk _ (by decide +kernel), exBank2_ok, by decide +kernel⟩
 
+/-- The header half of `C10_full_statement` (PARTIAL — extra hypothesis `hcnt`: fewer than 65536 songs, the
+range of the 16-bit identifier values; `hstart` as in the full statement).  Both generated headers
+exist (unique_string terminates) and the spec's header reader `LinkSpec.resolveHeaders` accepts them:
+both texts end with a newline and split into lines of the two formats `NAME = value` /
+`#define NAME value` with the same definitions, every name is a valid symbol, no name is defined
+twice, and per group of the spec's group order there is a MIN equal to the first song number, one
+definition per song with consecutive numbers whose name begins with `<group>_`, and a MAX equal to
+the last song number. -/
+theorem C10_full_headers_partial (m bk : Nat) (hm : 0 < m) (hm2 : m < 1073741824) (hb : bk < 1073741824)
+    (files : List (Bytes × Bytes)) (songs : List LinkSpec.SongIn) (l : Linker)
+    (hparse : files.map (fun f => LinkSpec.parseMds f.2) = songs.map some)
+    (hstart : ∀ s ∈ songs, ∀ sl ∈ s.slots, sl.start = 0)
+    (hrun : runOps (files.map fun f => Op.add f.1 f.2) (Linker.fresh m bk) = .ok l) (hcnt : songs.length < 65536) :
+    ∃ a c, asmHeader l = some a ∧ cHeader l = some c ∧ LinkSpec.resolveHeaders songs a c = .ok () := by
+  obtain ⟨ds, hd, hnodup, hok, _⟩ := C10_identifiers_unique_valid l
+  obtain ⟨hgroups, hkeys⟩ := seqBank_groups m bk hm hb hm2 files songs l hparse hstart hrun
+  have hn := songs_length_eq m bk files songs l hparse hrun
+  exact resolveHeaders_of l songs ds hd hnodup hok hgroups hkeys (by
+    rw [songCount_eq]; simp only [Linker.songs] at hn; omega)
+
+/-- `C10_full_statement` with two extra hypotheses (PARTIAL): `hbl`, the linked sequence bank is shorter
+than 4 GiB (32-bit offsets in the bank), and `hcnt`, fewer than 65536 songs (16-bit song count and
+identifier values).  (`hstart` — D11 — is part of the full statement.)  For every list of files the
+spec reader accepts that `MDSDRV_Linker()` links without error and whose `get_seq_data` succeeds, the
+spec resolver accepts the linked sequence bank with the linked PCM bank, and the header reader accepts
+both generated headers. -/
+theorem C10_full_partial (files : List (Bytes × Bytes)) (songs : List LinkSpec.SongIn) (l : Linker) (bank : Bytes)
+    (hparse : files.map (fun f => LinkSpec.parseMds f.2) = songs.map some)
+    (hstart : ∀ s ∈ songs, ∀ sl ∈ s.slots, sl.start = 0)
+    (hrun : runOps (files.map fun f => Op.add f.1 f.2) Linker.new = .ok l) (hseq : getSeqData l = .ok bank)
+    (hbl : bank.length < 4294967296) (hcnt : songs.length < 65536) :
+    LinkSpec.resolveBank songs bank (getPcmData l) = .ok () ∧
+    ∃ a c, asmHeader l = some a ∧ cHeader l = some c ∧ LinkSpec.resolveHeaders songs a c = .ok () := by
+  refine ⟨C10_full_bank_partial files songs l bank hparse hstart hrun hseq hbl hcnt, ?_⟩
+  rw [Linker.new_eq] at hrun
+  exact C10_full_headers_partial Tables.mds_linkWaveRom Tables.mds_linkWaveBank (by decide) (by decide) (by decide)
+    files songs l hparse hstart hrun hcnt
+
 /-- The full statement of C10 over the model, kept for the record: for every list of well-formed
-MDS files (as read by the spec's own reader, PCM start offsets 0) that the linker accepts, the
+MDS files (as read by the spec's own reader, PCM start offsets 0 — D11) that the linker accepts, the
 spec resolver accepts the linked sequence bank with the linked PCM bank, and the header reader
-accepts both headers.  Proved of it (theorems above), for all linker states / histories: the layout
-of get_seq_data (songs found through the table, bytes unchanged outside slots, every slot relocated
-to its bank entry at `entryOffset`, entries byte-identical in the bank), add_unique_data (stored
-once / never merged) and its bank-level form (C10_stored_once, incl. PCM headers), the
-group-ordered insertion, identifier generation (termination, validity, uniqueness, values), query
-independence; (a) the tie between `addSong`'s chunk walk and `parseMds` (C10_reader_agreement);
-(b) the PCM/data invariant over whole histories (C10_pcm_histories_partial: every patch entry
-serves what the file carried, PCM region inside `get_pcm_data`, pitch code, bank rule) — under
-`start = 0` (D11, also a hypothesis here).
-NOT proved: the last step, that the executable resolver `LinkSpec.resolveBank` / `resolveHeaders`
-returns `.ok ()` given these facts.  It needs (i) `LinkSpec.ordered songs` (insertion sort of the
-group symbols by `lexLe` over `symbolOf`) = the order of `l.songs` (`seqInsert` by `bytesLt` over
-`keyify`); [(ii) `songOk` for every song at its song number IS proved: C10_song_resolves_partial;]
-(iii) `increasing` spans and the area checks from the layout, the 16-bit song count; (iv) the list-level
-`storedOnce` from C10_stored_once(2); (v) the header text parser (`splitOn`, `natOfDigits ∘ decimal`)
-on `asmHeader`/`cHeader` from C10_identifiers_unique_valid.  The per-case judge runs exactly this
-resolver on the real output. -/
+accepts both headers.  PROVED as `C10_full_partial` with two extra hypotheses, and as stated here it is
+false without them: (1) the linked bank is shorter than 4 GiB — song and wave-table offsets are
+written as 32-bit words (`be32` truncates; the C++ computes them in an `int`); (2) fewer than 65536
+songs — the bank header carries the song count, and the headers the song numbers, in 16 bits
+(`write_be16(data, 6, get_seq_count())`, `uint16_t value`): the 65536th song makes the count read 0.
+Neither limit is checked by the linker; both are far outside anything the tools are used for, and the
+check's assumptions list the first.  The D11 hypothesis is the known finding (repaired on round-C14R). -/
 def C10_full_statement : Prop :=
   ∀ (files : List (Bytes × Bytes)) (songs : List LinkSpec.SongIn) (l : Linker) (bank : Bytes),
     files.map (fun f => LinkSpec.parseMds f.2) = songs.map some →
